@@ -96,7 +96,7 @@ def specs(gen, base_seed, n):
         k += 1
         spec['plan'] = [e for e in spec['plan'] if e['site'] != 'channel']
         for knob in ('worker_write_error', 'thread_start_fail', 'stdout_write_fail',
-                     'main_thread_start_fail'):
+                     'main_thread_start_fail', 'stderr_read_error'):
             (spec.get('knobs') or {}).pop(knob, None)      # (faults of the simulated world only)
         spec['opt'].pop('pm', None)          # (a real -D run would wait for a terminal)
         spec['opt'].pop('relpath', None)
